@@ -372,7 +372,10 @@ class Ctx(Result):
         case = dec(v["case"])
         a = rp(case)
         b = rp(case)
-        if json.dumps(enc(a[1]), sort_keys=True) != json.dumps(enc(b[1]), sort_keys=True):
+        same = getattr(self.module, "replay_equal", None)
+        if same is None:
+            same = lambda x, y: json.dumps(enc(x[1]), sort_keys=True) == json.dumps(enc(y[1]), sort_keys=True)
+        if not same(a, b):
             raise HarnessError("replay of %s is not deterministic" % v["signature"])
         if not a[0]:
             # The explorer observed the violation on the real code; the plain single-case driver did not. Both are
